@@ -243,6 +243,7 @@ func simC19(c *Ctx, prog c19prog, tapes *simrt.Tapes, k int, allowIntr bool) *c1
 	res := &c19result{}
 	c.Bubble(func() {
 		s := simrt.New(tapes)
+		s.EnableHB()
 		s.KeepTrace = c.Knobs["trace"] != ""
 		s.MaxSteps = 200000
 		res.sim = s
@@ -282,6 +283,9 @@ func simC19(c *Ctx, prog c19prog, tapes *simrt.Tapes, k int, allowIntr bool) *c1
 		res.maxRun = env.maxRun
 		res.sched = tapes.Sched.Rec
 		c.FinishSim(s, v)
+		if v == nil {
+			c.ReportRaces(s)
+		}
 	})
 	return res
 }
